@@ -159,6 +159,7 @@ ChildRes(c, R) ==
 \* and are withdrawn (certauth.rs process_child_suspend_inactive).  A child
 \* without certificates is not suspended at all.
 HasCerts(c) == \E x \in Roles : iss[c][x] # NoRes
+HasSus(c) == \E x \in Roles : sus[c][x] # NoRes
 
 ChildSuspend(c) ==
     /\ c # Top /\ cstate[c] = "active" /\ exists[parent[c]]
@@ -182,7 +183,7 @@ ChildUnsuspend(c) ==
     /\ cstate' = [cstate EXCEPT ![c] = "active"]
     /\ iss' = [iss EXCEPT ![c] = UnsuspendCerts(c)]
     /\ sus' = [sus EXCEPT ![c] = NoCerts]
-    /\ tasks' = tasks \cup {SR(parent[c])}
+    /\ tasks' = IF HasSus(c) THEN tasks \cup {SR(parent[c])} ELSE tasks
     /\ UNCHANGED <<exists, gone, parent, ent, rc, rcv, req, routes, pub>>
 
 \* ca_child_remove: all certificates of the child are revoked and withdrawn.
@@ -234,8 +235,11 @@ Relabel(c, K) == {IF k[1] = c THEN <<c, NewRole(k[2]), k[3]>> ELSE k : k \in K}
 \* key; this is refused if the new key's certificate does not hold what a
 \* child certificate claims (child.rs activate_key, misc.rs
 \* make_issued_cert: "not entitled to all requested resources").
+\* It is also refused while the CA has open requests for its parent
+\* (KeyRollActivatePendingRequests).
 CanActivate(c) ==
-    \A d \in ChildrenOf(c), x \in Roles :
+    /\ req[c] = {}
+    /\ \A d \in ChildrenOf(c), x \in Roles :
         /\ iss[d][x] \subseteq rcv[c]["new"]
         /\ sus[d][x] \subseteq rcv[c]["new"]
 
@@ -246,10 +250,7 @@ RollActivate(c) ==
     /\ rcv' = [rcv EXCEPT ![c] = Rotate(rcv[c])]
     /\ iss' = [iss EXCEPT ![c] = Rotate(iss[c])]
     /\ sus' = [sus EXCEPT ![c] = Rotate(sus[c])]
-    \* the requests travel with the keys: an open request for the new key
-    \* is now one for the current key; one for the former current key is
-    \* dropped with the roll's end (the revocation is always sent first)
-    /\ req' = [req EXCEPT ![c] = {"rev"} \cup (IF "new" \in @ THEN {"cur"} ELSE {})]
+    /\ req' = [req EXCEPT ![c] = {"rev"}]
     /\ tasks' = tasks \cup {SP(c), SR(c)}        \* KeyRollActivated
     \* what is at the publication server is now, by role, the staging key's
     \* manifest as the current key's and the products under the old key
@@ -281,13 +282,17 @@ DeleteCa(c) ==
     /\ routes' = [routes EXCEPT ![c] = {}]
     /\ pub' = [pub EXCEPT ![c] = EmptyPub]
     /\ LET p == parent[c]
-           reachable == exists[p] /\ cstate[c] # "none"
-       IN  /\ iss' = IF reachable THEN [iss EXCEPT ![c] = NoCerts] ELSE iss
-           /\ sus' = sus
-           /\ cstate' = IF reachable /\ cstate[c] = "suspended" /\ rc[c] # "none"
+           \* revocation requests are sent for the keys the CA has; a
+           \* suspended child that calls in is unsuspended first
+           callsIn == exists[p] /\ cstate[c] # "none" /\ rc[c] # "none"
+           hadCerts == HasCerts(c) \/ \E x \in Roles : UnsuspendCerts(c)[x] # NoRes
+       IN  /\ iss' = IF callsIn THEN [iss EXCEPT ![c] = NoCerts] ELSE iss
+           /\ sus' = IF callsIn THEN [sus EXCEPT ![c] = NoCerts] ELSE sus
+           /\ cstate' = IF callsIn /\ cstate[c] = "suspended"
                         THEN [cstate EXCEPT ![c] = "active"] ELSE cstate
-           /\ tasks' = (tasks \ {SR(c), RM(c)})
-                       \cup (IF reachable /\ HasCerts(c) THEN {SR(p), SP(c)} ELSE {})
+           \* (tasks of the deleted CA stay queued and are dropped when
+           \* their time comes)
+           /\ tasks' = tasks \cup (IF callsIn /\ hadCerts THEN {SR(p), SP(c)} ELSE {})
     /\ UNCHANGED <<parent, ent>>
 
 ---------------------------------------------------------------------------
@@ -314,7 +319,14 @@ Shrunk(c, newRes) ==
         THEN [x \in Roles |-> iss[d][x] \cap newRes]
         ELSE iss[d]]
 
-ShrinkChanges(c, newRes) == \E d \in AllCA : Shrunk(c, newRes)[d] # iss[d]
+ShrunkSus(c, newRes) ==
+    [d \in AllCA |->
+        IF parent[d] = c /\ cstate[d] # "none"
+        THEN [x \in Roles |-> sus[d][x] \cap newRes]
+        ELSE sus[d]]
+
+ShrinkChanges(c, newRes) ==
+    \E d \in AllCA : Shrunk(c, newRes)[d] # iss[d] \/ ShrunkSus(c, newRes)[d] # sus[d]
 
 \* Task::SyncParent -> CaManager::ca_sync_parent
 SyncParentOK(c) ==
@@ -334,9 +346,12 @@ SyncParentSend(c) ==
     /\ LET p    == parent[c]
            call == CallIn(c, iss[c], sus[c])
            E    == Offer(c)
-           wakeTasks == IF call.woke THEN {SR(p)} ELSE {}
+           wakeTasks == IF call.woke /\ HasSus(c) THEN {SR(p)} ELSE {}
            \* 1. revocation of the old key ends the roll
            doRev == "rev" \in req[c] /\ rc[c] = "roll_old"
+           \* (a key whose certificate is gone already is confirmed as
+           \* revoked without any effect at the parent)
+           revEffective == doRev /\ call.iss["old"] # NoRes
            rc1  == IF doRev THEN "active" ELSE rc[c]
            iss1 == IF doRev THEN [call.iss EXCEPT !["old"] = NoRes] ELSE call.iss
            rcv1 == IF doRev THEN [rcv[c] EXCEPT !["old"] = NoRes] ELSE rcv[c]
@@ -367,8 +382,10 @@ SyncParentSend(c) ==
             /\ rcv' = [rcv EXCEPT ![c] = rcv1]
             /\ rc' = [rc EXCEPT ![c] = rc1]
             /\ req' = [req EXCEPT ![c] = @ \ {"rev"}]
+            /\ sus' = [sus EXCEPT ![c] = call.sus]
             /\ tasks' = ((tasks \ {SP(c)}) \cup wakeTasks)
-                         \cup (IF doRev THEN {SR(c), SR(p), SP(c)} ELSE {})
+                         \cup (IF doRev THEN {SR(c)} ELSE {})
+                         \cup (IF revEffective THEN {SR(p), SP(c)} ELSE {})
        ELSE
             /\ iss' = [(IF curChanged THEN Shrunk(c, newCur) ELSE iss) EXCEPT ![c] =
                           [iss1 EXCEPT
@@ -376,13 +393,13 @@ SyncParentSend(c) ==
                              !["new"] = IF ("new" \in certReqs \/ pendToNew) THEN E ELSE @]]
             /\ rcv' = [rcv EXCEPT ![c] = [rcv1 EXCEPT !["cur"] = newCur, !["new"] = newNew]]
             /\ rc' = [rc EXCEPT ![c] = rc2]
+            /\ sus' = [(IF curChanged THEN ShrunkSus(c, newCur) ELSE sus) EXCEPT ![c] = call.sus]
             /\ req' = [req EXCEPT ![c] = {}]
             /\ tasks' = ((tasks \ {SP(c)}) \cup wakeTasks)
-                         \cup (IF certReqs # {} \/ doRev THEN {SR(p)} ELSE {})
+                         \cup (IF certReqs # {} \/ revEffective THEN {SR(p)} ELSE {})
                          \cup (IF ownChange THEN {SR(c)} ELSE {})
                          \* ChildKeyRevoked: the parent tells the child to sync
-                         \cup (IF doRev THEN {SP(c)} ELSE {})
-    /\ sus' = [sus EXCEPT ![c] = CallIn(c, iss[c], sus[c]).sus]
+                         \cup (IF revEffective THEN {SP(c)} ELSE {})
     /\ cstate' = [cstate EXCEPT ![c] = "active"]
     /\ UNCHANGED <<exists, gone, parent, ent, routes, pub>>
 
@@ -393,7 +410,7 @@ SyncParentList(c) ==
     /\ LET p    == parent[c]
            call == CallIn(c, iss[c], sus[c])
            E    == Offer(c)
-           wakeTasks == IF call.woke THEN {SR(p)} ELSE {}
+           wakeTasks == IF call.woke /\ HasSus(c) THEN {SR(p)} ELSE {}
            wanted == (IF rc[c] \in {"pending", "roll_pending"} THEN {"pend"} ELSE {})
                      \cup (IF rc[c] \in {"active", "roll_pending", "roll_new", "roll_old"}
                               /\ rcv[c]["cur"] # E THEN {"cur"} ELSE {})
@@ -488,7 +505,7 @@ RefreshAll ==
     /\ UNCHANGED <<exists, gone, parent, ent, cstate, iss, sus, rc, rcv, req,
                    routes, pub>>
 
-Next ==
+ApiNext ==
     \/ \E c \in Sub, R \in SUBSET Res : AddCa(c, ParentOf[c], R)
     \/ "res" \in Ops /\ \E c \in Sub, R \in SUBSET Res : ChildRes(c, R)
     \/ "suspend" \in Ops /\ \E c \in Sub : ChildSuspend(c) \/ ChildUnsuspend(c)
@@ -496,8 +513,11 @@ Next ==
     \/ "roa" \in Ops /\ \E c \in AllCA, r \in Roa : RoaAdd(c, r) \/ RoaDel(c, r)
     \/ "roll" \in Ops /\ \E c \in Sub : RollInit(c) \/ RollActivate(c)
     \/ "delete" \in Ops /\ \E c \in Sub : DeleteCa(c)
-    \/ \E c \in AllCA : Task(c)
     \/ "refresh" \in Ops /\ RefreshAll
+
+TaskNext == \E c \in AllCA : Task(c)
+
+Next == ApiNext \/ TaskNext
 
 Spec == Init /\ [][Next]_vars
 
@@ -563,14 +583,39 @@ Quiescent == tasks = {}
 \* Nothing is left to do for any CA: one more round of parent syncs and the
 \* tasks they cause changes nothing.  (Settled is established by the
 \* harness action Settle, which runs RefreshAll + tasks to a fixed point.)
+\* KNOWN FINDING (known-findings.json, C02-open-request-blocks-listing): a CA
+\* with an open certificate request always sends it first and lists its
+\* entitlements only when nothing is open (manager.rs ca_sync_parent).  If
+\* the parent has nothing to offer any more (entitlement and parent's
+\* certificate do not intersect) the request is refused every time, so the
+\* CA never learns that the class is gone and keeps the request for ever.
+StuckRequest(c) ==
+    /\ exists[c] /\ c # Top /\ parent[c] \in AllCA /\ exists[parent[c]]
+    /\ cstate[c] # "none"
+    /\ (req[c] \ {"rev"}) # {} /\ Offer(c) = NoRes
+NoStuckRequest == \A c \in AllCA : ~StuckRequest(c)
+
 NoOpenWork(c) ==
-    exists[c] /\ c # Top /\ parent[c] \in AllCA /\ exists[parent[c]]
+    exists[c] /\ c # Top /\ ~StuckRequest(c) /\ parent[c] \in AllCA /\ exists[parent[c]]
       /\ cstate[c] = "active"
     => /\ req[c] = {}
-       /\ rc[c] \in {"active", "none"}
+       \* (a roll waiting for the operator to activate the new key is at rest)
+       /\ rc[c] \in {"active", "none", "roll_new"}
        /\ rcv[c]["cur"] = Offer(c)
+       /\ rc[c] = "roll_new" => rcv[c]["new"] = Offer(c)
        /\ iss[c] = rcv[c]
 Settled == Quiescent /\ \A c \in AllCA : NoOpenWork(c)
+
+\* KNOWN FINDING (known-findings.json, C03-deleted-ca-cert-not-revoked): a
+\* CA that is deleted after its resource class was removed but before the
+\* ResourceClassRemoved task has sent the revocation requests never gets
+\* its certificate revoked (scheduler.rs resource_class_removed drops the
+\* task of a deleted CA): the parent keeps publishing a certificate whose
+\* publication point is gone.  The properties below are stated for states
+\* without such a dangling certificate; reaching one on the real code is
+\* reported as the known finding by the checks.
+Dangling(c) == gone[c] /\ HasCerts(c) /\ parent[c] \in AllCA /\ exists[parent[c]]
+NoDangling == \A c \in AllCA : ~Dangling(c)
 
 \* C01: the published tree is relying-party clean and says exactly what
 \* was configured, whenever background work has caught up.
@@ -578,8 +623,8 @@ RPClean == RoaOverclaims = {} /\ CertOverclaims = {} /\ MissingPoints = {}
 ExpectedVrps ==
     {<<r, c>> \in Roa \X AllCA :
         exists[c] /\ Valid(c) /\ r \in routes[c] /\ Prefix(r) \in rcv[c]["cur"]}
-C01_Clean == Settled => RPClean
-C01_Vrps == Settled => RpVrps = ExpectedVrps
+C01_Clean == Settled /\ NoDangling /\ NoStuckRequest => RPClean
+C01_Vrps == Settled /\ NoStuckRequest => RpVrps = ExpectedVrps
 
 \* C02: in what a CA publishes, no child certificate claims more than the
 \* CA's own current certificate (evaluated whenever the CA's publication is
@@ -603,8 +648,9 @@ C02_IssuedWithinEntitlement == [][C02_IssuedWithinEntitlementStep]_vars
 C02_Converged ==
     Settled => \A c \in Sub :
         exists[c] /\ parent[c] \in AllCA /\ exists[parent[c]] /\ cstate[c] = "active"
+        /\ ~StuckRequest(c)
         => (IF Offer(c) = NoRes THEN rc[c] = "none"
-            ELSE rc[c] = "active" /\ rcv[c]["cur"] = Offer(c))
+            ELSE rc[c] \in {"active", "roll_new"} /\ rcv[c]["cur"] = Offer(c))
 
 \* C04: exactly one key signs products; staging and old keys carry manifest
 \* and CRL only; every key in use has a certificate.
